@@ -72,7 +72,7 @@ theorem not_unlinked_of_hasConn {a : Sk} {hole} {fd : Nat} (hw : WfS a hole) (hh
 /-! ### `connError` -/
 
 theorem good_connError {go} (hgo : GoOk go) {d fd critical st s} (hpre : Pre d s (.connError fd critical st)) :
-    Good d (.connError fd critical st) s (bodyConnError go fd critical st s) := by
+    GoodO d (.connError fd critical st) s (bodyConnError go fd critical st s) := by
   obtain ⟨hw, hh, hd⟩ := hpre
   obtain ⟨c, hc⟩ := conn?_of_live (live_of_hasConn hh)
   unfold bodyConnError
@@ -82,13 +82,14 @@ theorem good_connError {go} (hgo : GoOk go) {d fd critical st s} (hpre : Pre d s
     · exact sk_incFailures s _ _ (server_ids_nodup hw)
     · rfl
   generalize (if critical = true then s.incFailures c.srv c.tcp else s) = s1 at hsk1
-  refine Good.tail' (hgo d _ _ ?_) (by rw [hsk1]; exact StepS.refl _ _ _ _) (Or.inl rfl) (Or.inl rfl) trivial
+  refine Good.tail' (hgo.2 d _ _ ?_) (by rw [hsk1]; exact StepS.refl _ _ _ _) (Or.inl rfl) (Or.inl rfl)
+    (fun _ => trivial)
   exact ⟨Wf.of_sk_eq hsk1 hw, by rw [hsk1]; exact hh, by rw [hsk1]; exact hd⟩
 
 /-! ### `closeConn` -/
 
 theorem good_closeConn {go} (hgo : GoOk go) {d fd st s} (hpre : Pre d s (.closeConn fd st)) :
-    Good d (.closeConn fd st) s (bodyCloseConn go fd st s) := by
+    GoodO d (.closeConn fd st) s (bodyCloseConn go fd st s) := by
   obtain ⟨hw, hh, hd⟩ := hpre
   obtain ⟨c, hc⟩ := conn?_of_live (live_of_hasConn hh)
   obtain ⟨hcfd, hcm⟩ := conn?_sk hc
@@ -107,9 +108,10 @@ theorem good_closeConn {go} (hgo : GoOk go) {d fd st s} (hpre : Pre d s (.closeC
         { v with conns := v.conns.erase fd, tcpConn := if c.tcp then none else v.tcpConn }).modConn fd fun c =>
         { c with unlinked := true, out := [], outOff := 0, inBytes := 0, inMsgs := [] }) = s2 at hsk2
   have hfd : c.sk.fd = fd := hcfd
-  have hg := hgo d (.closeLoop fd st) s2 ⟨by unfold Wf; rw [hsk2]; exact wf_mark hw hcm,
-    by rw [hsk2, ← hfd]; exact hasConn_mark hcm, by rw [hsk2]; exact debt_mark hd⟩
-  refine ⟨hg.wf, hg.debt, ?_, trivial⟩
+  rcases hgo.2 d (.closeLoop fd st) s2 ⟨by unfold Wf; rw [hsk2]; exact wf_mark hw hcm,
+    by rw [hsk2, ← hfd]; exact hasConn_mark hcm, by rw [hsk2]; exact debt_mark hd⟩ with hoof | hg
+  · exact Or.inl hoof
+  refine Or.inr ⟨hg.wf, hg.debt, ?_, trivial⟩
   exact StepS.drop_xf (a2 := s2.sk) (by rw [hsk2]; exact step_mark) hg.step (not_unlinked_of_hasConn hw hh)
 
 /-! ### `closeLoop` -/
@@ -121,7 +123,7 @@ theorem sk_removeConn_st (s : St) (fd : Nat) :
   rfl
 
 theorem good_closeLoop {go} (hgo : GoOk go) {d fd st s} (hpre : Pre d s (.closeLoop fd st)) :
-    Good d (.closeLoop fd st) s (bodyCloseLoop go fd st s) := by
+    GoodO d (.closeLoop fd st) s (bodyCloseLoop go fd st s) := by
   obtain ⟨hw, hh, hd⟩ := hpre
   obtain ⟨c, hc⟩ := conn?_of_live (live_of_hasConn hh)
   obtain ⟨hcfd, hcm⟩ := conn?_sk hc
@@ -133,9 +135,11 @@ theorem good_closeLoop {go} (hgo : GoOk go) {d fd st s} (hpre : Pre d s (.closeL
     rename_i k rest hcq
     have hkq : k ∈ c.sk.queries := by show k ∈ c.queries; rw [hcq]; exact List.mem_cons_self
     have hki : k ∈ s.sk.idx := (hw.c.cq (c.sk.fd, c.sk.queries) (mem_cFQ.mpr ⟨c.sk, hcm, rfl⟩) k hkq).1
-    have hg1 := hgo d (.requeue k st true none false) s ⟨WfS.weaken_hole hw, hki, hd⟩
+    have hg1 := hgo.2 d (.requeue k st true none false) s ⟨WfS.weaken_hole hw, hki, hd⟩
     generalize go (.requeue k st true none false) s = r1 at hg1
     obtain ⟨s1, ret1⟩ := r1
+    rcases hg1 with hoof | hg1
+    · exact Or.inl (hgo.1 _ _ (by simpa using hoof))
     -- the connection is still there, still unlinked, and no longer lists `k`
     have hmu : (fd, true, c.queries) ∈ s.sk.cFUQ :=
       mem_cFUQ.mpr ⟨c.sk, hcm, by rw [← hcfd, ← hcu]; rfl⟩
@@ -149,9 +153,10 @@ theorem good_closeLoop {go} (hgo : GoOk go) {d fd st s} (hpre : Pre d s (.closeL
       rw [List.erase_of_not_mem this]
     simp only
     generalize (s1.modConn fd fun c => { c with queries := c.queries.erase k }) = s2 at hsk2
-    have hg2 := hgo d (.closeLoop fd st) s2
-      ⟨Wf.of_sk_eq hsk2 hg1.wf, by rw [hsk2]; exact ⟨q1, hq1⟩, by rw [hsk2]; exact hg1.debt⟩
-    refine ⟨hg2.wf, hg2.debt, ?_, trivial⟩
+    rcases hgo.2 d (.closeLoop fd st) s2
+      ⟨Wf.of_sk_eq hsk2 hg1.wf, by rw [hsk2]; exact ⟨q1, hq1⟩, by rw [hsk2]; exact hg1.debt⟩ with hoof2 | hg2
+    · exact Or.inl hoof2
+    refine Or.inr ⟨hg2.wf, hg2.debt, ?_, trivial⟩
     have h1 : StepS (some fd) none d s.sk s2.sk := by rw [hsk2]; exact hg1.step.weaken'
     exact h1.trans hg2.step
   · -- the list is empty: close the socket, release the connection
@@ -168,7 +173,7 @@ theorem good_closeLoop {go} (hgo : GoOk go) {d fd st s} (hpre : Pre d s (.closeL
     rw [hskX, ← hcfd] at hsk
     have hfd' : c.fd = c.sk.fd := rfl
     rw [hcfd] at hsk
-    refine ⟨?_, ?_, ?_, trivial⟩
+    refine Or.inr ⟨?_, ?_, ?_, trivial⟩
     · show Wf _
       unfold Wf; rw [hsk, ← hcfd, hfd']; exact wf_removeConn hw hcm hcu hcq
     · show DebtOk none d _
@@ -179,7 +184,7 @@ theorem good_closeLoop {go} (hgo : GoOk go) {d fd st s} (hpre : Pre d s (.closeL
 /-! ### `processWrite` -/
 
 theorem good_processWrite {go} (hgo : GoOk go) {d fd s} (hpre : Pre d s (.processWrite fd)) :
-    Good d (.processWrite fd) s (bodyProcessWrite go fd s) := by
+    GoodO d (.processWrite fd) s (bodyProcessWrite go fd s) := by
   obtain ⟨hw, hd⟩ := hpre
   unfold bodyProcessWrite
   split
@@ -192,12 +197,18 @@ theorem good_processWrite {go} (hgo : GoOk go) {d fd s} (hpre : Pre d s (.proces
       have hsk1 : (s.modConn fd fun c => { c with connected := true }).sk = s.sk := by
         rw [sk_modConn_same]; intro; rfl
       generalize (s.modConn fd fun c => { c with connected := true }) = s1 at hsk1
-      have hg1 := hgo d (.flush fd) s1
+      rcases hgo.2 d (.flush fd) s1
         ⟨Wf.of_sk_eq hsk1 hw, by unfold Sk.liveConn; rw [hsk1]; exact live_of_conn? hc, by rw [hsk1]; exact hd⟩
+        with hoof | hg1
+      · simp only
+        split
+        · exact Or.inl (hgo.1 _ _ hoof)
+        · exact Or.inl hoof
       have hsk2 : (go (.flush fd) s1).1.sk = s.sk := hg1.post.trans hsk1
       simp only
       split
-      · refine Good.tail' (hgo d _ _ ?_) (by rw [hsk2]; exact StepS.refl _ _ _ _) (Or.inl rfl) (Or.inl rfl) trivial
+      · refine Good.tail' (hgo.2 d _ _ ?_) (by rw [hsk2]; exact StepS.refl _ _ _ _) (Or.inl rfl) (Or.inl rfl)
+          (fun _ => trivial)
         refine ⟨hg1.wf, ?_, hg1.debt⟩
         rw [hsk2]; have := hasConn_of_conn? hc; rwa [hcu'] at this
       · exact Good.of_sk_eq hw hd hsk2 trivial
@@ -205,14 +216,14 @@ theorem good_processWrite {go} (hgo : GoOk go) {d fd s} (hpre : Pre d s (.proces
 /-! ### `cleanupConns` -/
 
 theorem good_cleanupConns {go} (hgo : GoOk go) {d todo s} (hpre : Pre d s (.cleanupConns todo)) :
-    Good d (.cleanupConns todo) s (bodyCleanupConns go todo s) := by
+    GoodO d (.cleanupConns todo) s (bodyCleanupConns go todo s) := by
   obtain ⟨hw, hd⟩ := hpre
   unfold bodyCleanupConns
   split
   · exact Good.of_sk_eq hw hd rfl trivial
   · rename_i fd rest
     split
-    · exact Good.tail' (hgo d _ _ ⟨hw, hd⟩) (StepS.refl _ _ _ _) (Or.inl rfl) (Or.inl rfl) trivial
+    · exact Good.tail' (hgo.2 d _ _ ⟨hw, hd⟩) (StepS.refl _ _ _ _) (Or.inl rfl) (Or.inl rfl) (fun _ => trivial)
     · rename_i c hc
       simp only
       split
@@ -220,9 +231,12 @@ theorem good_cleanupConns {go} (hgo : GoOk go) {d todo s} (hpre : Pre d s (.clea
         have hcu : c.unlinked = false := by
           simp only [Bool.and_eq_true, Bool.not_eq_true'] at hdo
           exact hdo.1.2
-        have hg1 := hgo d (.closeConn fd .ok) s ⟨hw, by have := hasConn_of_conn? hc; rwa [hcu] at this, hd⟩
-        have hg2 := hgo d (.cleanupConns rest) _ ⟨hg1.wf, hg1.debt⟩
-        exact ⟨hg2.wf, hg2.debt, hg1.step.trans hg2.step, trivial⟩
-      · exact Good.tail' (hgo d _ _ ⟨hw, hd⟩) (StepS.refl _ _ _ _) (Or.inl rfl) (Or.inl rfl) trivial
+        rcases hgo.2 d (.closeConn fd .ok) s ⟨hw, by have := hasConn_of_conn? hc; rwa [hcu] at this, hd⟩
+          with hoof | hg1
+        · exact Or.inl (hgo.1 _ _ hoof)
+        rcases hgo.2 d (.cleanupConns rest) _ ⟨hg1.wf, hg1.debt⟩ with hoof2 | hg2
+        · exact Or.inl hoof2
+        exact Or.inr ⟨hg2.wf, hg2.debt, hg1.step.trans hg2.step, trivial⟩
+      · exact Good.tail' (hgo.2 d _ _ ⟨hw, hd⟩) (StepS.refl _ _ _ _) (Or.inl rfl) (Or.inl rfl) (fun _ => trivial)
 
 end Cares.Chan
